@@ -159,3 +159,107 @@ fn reach_witness() {
     let got = State::by_performing_move(&s, &mv).unwrap();
     assert!(same_pos(&from_state(&got), &p), "reach witness");
 }
+
+// ---- C02.c, resolver: `State::by_performing_moves` on top of *any* legal-move list -------------------
+//
+// The real legal move generator cannot be executed symbolically as a whole (DESIGN §4.1 C01.c), so it is
+// replaced here by an adversarial stand-in that returns an arbitrary list of at most two pseudo-legal
+// moves of the position (with their real successors). What is decided is the resolver's own logic for
+// every such list: exactly one match -> that very move is applied; none -> rejected as unknown;
+// several -> rejected as ambiguous; the input position is never changed. In native replay no stub is
+// active: the expectation is recomputed from the real generator's list.
+
+static mut STUB_N: usize = 0;
+static mut STUB_MV: [Mv; 2] = [Mv { from: 0, to: 0, promo: 0 }; 2];
+
+pub fn legal_moves_adversarial(state: &State) -> MoveSet {
+    let p = from_state(state);
+    let n: usize = kani::any();
+    kani::assume(n <= 2);
+    let mut v: Vec<MoveResult> = Vec::with_capacity(2);
+    let mut i = 0;
+    while i < 2 {
+        if i < n {
+            let m = any_mv();
+            kani::assume(fide_pseudo(&p, m));
+            let mv = build_move(&p, m);
+            let succ = State::by_performing_move(state, &mv).unwrap();
+            v.push(MoveResult(mv, succ));
+            unsafe {
+                STUB_MV[i] = m;
+            }
+        }
+        i += 1;
+    }
+    unsafe {
+        STUB_N = n;
+    }
+    MoveSet::new(v)
+}
+
+/// What the coordinate resolver is specified to match (decided for `MoveQuery::test` in `coordinate_query`).
+fn spec_match(p: &Pos, m: Mv, qf: u8, qt: u8, ql: u8) -> bool {
+    let k = p.kind_at(p.us(), m.from);
+    qf == m.from && qt == m.to && (ql == 0 || (if m.promo != 0 { ql == m.promo } else { ql == k }))
+}
+
+#[cfg_attr(kani, kani::proof)]
+#[cfg_attr(kani, kani::stub(weechess_core::MoveGenerator::compute_legal_moves, legal_moves_adversarial))]
+#[cfg_attr(replay, test)]
+fn resolver_applies_exactly_the_selected_move() {
+    let bb = any_bb();
+    let wtm: bool = kani::any();
+    let p = any_pos_around(bb, wtm);
+    kani::assume(legal_position(&p));
+    let qf: u8 = kani::any();
+    let qt: u8 = kani::any();
+    let ql: u8 = kani::any();
+    kani::assume(qf < 64 && qt < 64 && (ql == 0 || (ql >= 2 && ql <= 5)));
+    print_pos("c02 resolver", &p);
+    println!("CASE {{\"harness\":\"c02 resolver\",\"qfrom\":{},\"qto\":{},\"qletter\":{}}}", qf, qt, ql);
+    let s = to_state(&p);
+    let mut q = MoveQuery::by_moving_from_to(sq(qf), sq(qt));
+    if ql != 0 {
+        q.set_promotion(piece_of(ql));
+    }
+    let got = State::by_performing_moves(&s, &[q]);
+    // the list the resolver saw
+    let mut matches = 0usize;
+    let mut hit = Mv { from: 0, to: 0, promo: 0 };
+    #[cfg(kani)]
+    {
+        let n = unsafe { STUB_N };
+        let list = unsafe { STUB_MV };
+        let mut i = 0;
+        while i < 2 {
+            if i < n && spec_match(&p, list[i], qf, qt, ql) {
+                matches += 1;
+                hit = list[i];
+            }
+            i += 1;
+        }
+    }
+    #[cfg(not(kani))]
+    {
+        for r in MoveGenerator::compute_legal_moves(&s).moves() {
+            let m = mv_of(&r.0);
+            if spec_match(&p, m, qf, qt, ql) {
+                matches += 1;
+                hit = m;
+            }
+        }
+    }
+    match got {
+        Ok(ref ns) => {
+            assert!(matches == 1, "a move is applied only when the coordinates select exactly one move of the list");
+            assert!(same_pos(&from_state(ns), &apply_ref(&p, hit)), "the applied move is the selected one");
+        }
+        Err(MovePerformError::UnknownMove) => assert!(matches == 0, "coordinates are rejected as unknown only when nothing matches"),
+        Err(MovePerformError::AmbiguousMove) => assert!(matches >= 2, "coordinates are rejected as ambiguous only when several moves match"),
+        Err(_) => assert!(false, "no other error for coordinate selection"),
+    }
+    assert!(same_pos(&from_state(&s), &p), "the position handed in is unchanged");
+    kani::cover!(matches == 1 && got.is_ok(), "one match, applied");
+    kani::cover!(matches == 2, "a promotion square without a letter matches several promotions");
+    kani::cover!(matches == 0, "nothing matches");
+}
